@@ -346,7 +346,7 @@ def classify_failure(h, r):
     return "undecided", soft or [{"description": "FAILED without a listed check"}]
 
 
-def concrete_playback(h, timeout=1800):
+def concrete_playback(h, timeout=1800, failed_checks=None):
     """re-runs one failing harness asking Kani for a concrete counterexample, returns the generated unit test text (or None)"""
     cmd = ["cargo", "kani"] + KANI_FLAGS + ["-Z", "concrete-playback", "--concrete-playback=print", "--exact", "--harness", h.full,
                                             "--output-format", "terse"]
@@ -356,7 +356,56 @@ def concrete_playback(h, timeout=1800):
     failing = [b for b in blocks if "Check for `cover`" not in b]       # Kani also prints witnesses of satisfied cover properties
     if failing:
         return failing[0], out
-    return None, out
+    # Kani 0.68 prints playback tests for satisfied cover properties but (observed) none for a failed `assert!` of a harness that also has
+    # covers. Fallback: in a scratch copy of the harness texts the failed assert gets a companion `kani::cover!(!(cond))` -- a witness of that
+    # cover is, by construction, an input on which the ORIGINAL assertion fails; the test is then replayed against the unmodified harness.
+    test, out2 = _playback_via_cover(h, failed_checks or [], cmd, timeout)
+    return test, out + out2
+
+
+def _playback_via_cover(h, failed_checks, cmd, timeout):
+    import shutil
+    from . import rustlex as lx
+    msgs = []
+    for fc in failed_checks:
+        if isinstance(fc, dict):
+            m = re.fullmatch(r'\s*"(.*)"\s*', fc.get("description", ""), re.S)
+            if m and os.path.dirname(fc.get("file", "")) == KANI_DIR:
+                msgs.append(m.group(1))
+    if not msgs:
+        return None, ""
+    scratch = os.path.join(CACHE, "playback", f"cover-{os.getpid()}")
+    shutil.rmtree(scratch, ignore_errors=True)
+    shutil.copytree(KANI_DIR, os.path.join(scratch, "kani"))
+    n_cov = 0
+    # harnesses are macro-generated (Kani reports the macro call site as the location), so the failed assert is identified by its message
+    for name in sorted(os.listdir(os.path.join(scratch, "kani"))):
+        if not name.endswith(".rs"):
+            continue
+        f = os.path.join(scratch, "kani", name)
+        text = read(f)
+        # the harness' own covers are switched off in the scratch copy: Kani prints one test per distinct input, labelled with the first cover it
+        # witnesses, so another cover with the same witness would hide the one added here
+        for s, e, a in sorted(lx.find_macro_calls(text, "cover"), reverse=True):
+            s0 = s - len("kani::") if text[:s].endswith("kani::") else s
+            text = text[:s0] + "{}" + text[e:]
+        calls = [(s, e, a) for (s, e, a) in lx.find_macro_calls(text, "assert") if any(('"' + m + '"') in a for m in msgs[:3])]
+        for s, e, a in sorted(calls, reverse=True):
+            argv = lx.split_args(a)
+            if len(argv) < 2:
+                continue
+            text = text[:s] + "kani::cover!(!(" + argv[0] + '), "FAILING-INPUT witness"); ' + text[s:]
+            n_cov += 1
+        write(f, text)
+    if not n_cov:
+        shutil.rmtree(scratch, ignore_errors=True)
+        return None, ""
+    with _Lock():
+        rc, out, wall = sh(cmd, cwd=REPO, env=dict(_kani_env(), REACTIVE_MUTINY_VERIF_DIR=scratch), timeout=timeout)
+    shutil.rmtree(scratch, ignore_errors=True)
+    blocks = re.findall(r"Concrete playback unit test for `[^`]*`:\s*```\s*\n(.*?)```", out, re.S)
+    hit = [b for b in blocks if "FAILING-INPUT witness" in b]
+    return (hit[0] if hit else None), "\n--- fallback run (failed assert mirrored by a cover) ---\n" + out[-3000:]
 
 
 def native_playback(h, test_text, timeout=1500):
